@@ -186,7 +186,9 @@ class World:
 def net_state(net):
     """The part of the simulated network that belongs to the *state* (not the history)."""
     return (
-        tuple((t.cid, t._closing, t.lost, t.fail_after, t.paused, t.eof_from_peer, t.closed_by, t.buffered, t.linger)
+        tuple((t.cid, t._closing, t.lost, t.fail_after, t.paused, t.eof_from_peer, t.closed_by, t.buffered, t.linger,
+               # what a stalled stream still owes its peer (contents, not positions in the log)
+               tuple(bytes(ref) for (_li, _off, ref) in t._held), tuple(net.log[li][3] for li in t._undelivered))
               for t in net.conns if not t.lost),
         len(net.pending), net.auto,
     )
